@@ -3,6 +3,7 @@ import json
 from ..report import Report, Violation
 from ..explorer import pmap, chunked, NPROC
 from ..families import fc
+from .. import simcheck
 
 
 def work(chunk):
@@ -43,6 +44,10 @@ def main(tier, seed):
             rep.add_violations([Violation("timeline", kind, detail, c, [], site=site, family="FC")])
     rep.part("F-C", cases=len(cs), skipped_too_ambiguous=sum(r["skipped"] for r in res),
              cases_with_float_boundary_alternatives=sum(r["multi_cand"] for r in res))
+    # the same model with NEIGHBOURS in the pool (a container's timeline and its OOM tick must not depend on what the
+    # others do in that tick: one finishing, one created, one killed): the memory-mix family in lock-step with the model
+    rep.cov["rule"] += "; " + simcheck.RULE["F3"]
+    simcheck.run_f3(rep, "C05", tier)
     rep.cov["bounds"] = dict(operators="1..3", segments="1..2", tick_rates=[1, 2, 3, 10, 1000, 100000])
     rep.sample(cs[len(cs) // 3])
     rep.sample(cs[-1])
@@ -50,6 +55,8 @@ def main(tier, seed):
 
 
 def replay(rec):
+    if rec.get("family") != "FC":
+        return simcheck.replay(rec)
     probs, info = fc.run_case(rec["scenario"])
     print("case:", json.dumps(rec["scenario"]))
     print("info:", info)
